@@ -46,6 +46,8 @@ class C09(scen.WorldProp):
                 "Wheatley.C09.strike_disarms_only_itself",
                 "Wheatley.C09.own_strike_disarms",
                 "Wheatley.C09.expect_keeps_armed",
+                "Wheatley.C09.look_to_forgets_early",
+                "Wheatley.C09.first_row_arms",
                 "Wheatley.C09.keep_going_never_waits"]
     level_text = ("theorems: while a user-controlled bell is in the expected set of the stroke being rung the wait "
                   "loop only sleeps (no strike, no progress); expect_bell puts every not-yet-heard human bell of the "
